@@ -581,10 +581,26 @@ fn judge(run: &Run, selftest: &str, c: &Case) -> CaseResult {
     // ---- patch in place + read
     let mut patched = embedded.clone();
     patched[off..off + signed.len()].copy_from_slice(&signed);
+    // bytes of zero padding that sign_embeddable appends after the JUMBF superbox (flow 0), predicted from the
+    // input only: what the placeholder reserved minus what the real exclusion list / dynamic assertion need
+    let slack = if flow == 0 && !is_bmff {
+        dummy_excl_cbor_len() as i64 - excl_len as i64 - c.dynamic.map(da_placeholder_short).unwrap_or(0) as i64
+    } else {
+        0
+    };
+    if c.kind == "jxl" && jumbf_len(&signed).is_some_and(|l| l < signed.len()) {
+        // informational: JPEG XL carries the manifest as a bare top-level `jumb` box, so zeros after it are parsed
+        // as further box headers (size 0 = "to end of file") by any box walker
+        run.count("jxl_zero_bytes_after_jumb_box");
+    }
     let reader = match vh::catch(|| vh::sdk::read(fmt, &patched)).map_err(|p| panic_fail("Reader", p))? {
         Ok(r) => r,
         Err(e) => {
-            return Err(Fail::new(format!("C15:{api}-patched-asset-unreadable:{}", c.kind), format!("Reader fails: {e}; {}", what_case())));
+            let class = if c.kind == "jxl" && (1..=7).contains(&slack) { ":zero-padding-1..7-bytes" } else { "" };
+            return Err(Fail::new(
+                format!("C15:{api}-patched-asset-unreadable:{}{class}", c.kind),
+                format!("Reader fails: {e}; predicted zero padding {slack} bytes; {}", what_case()),
+            ));
         }
     };
     if !vh::sdk::is_valid_or_trusted(&reader) {
